@@ -1,9 +1,9 @@
 (* C16 — Every address has one zone and one ledger, respected by all state.
    Property theorems only: each is closed by [exact <lemma>] and followed by
-   [Print Assumptions].  Model: Model/C16.v  Lemmas: Proofs/C16.v  Generated data: Generated/C16Sites.v
+   [Print Assumptions].  Model: Model/C16.v  Lemmas: Proofs/C16.v, Proofs/C16_Sender.v  Generated data: Generated/C16Sites.v
    [bytes_to_address] is the model of the CURRENT common.BytesToAddress (Model.C16.fix_applied = false). *)
 From Coq Require Import List NArith Bool.
-From GQ Require Import Lib.Key Model.C16 Generated.C16Sites Proofs.C16.
+From GQ Require Import Lib.Key Model.C16 Generated.C16Sites Proofs.C16 Proofs.C16_Sender.
 Import ListNotations.
 Local Open Scope N_scope.
 
@@ -220,6 +220,43 @@ Theorem qi_utxo_owner_is_in_zone_qi_address_refuted :
 Proof. exact qi_utxo_owner_refuted_lemma. Qed.
 Print Assumptions qi_utxo_owner_is_in_zone_qi_address_refuted.
 
+(* ---- addresses handed out from stored / cached bytes: the sender cache of a transaction ----
+   [run_ops t st_init ops] = any history of Sender / SignerV1.Sender / From / SetFrom / Hash /
+   AsMessage / FromChain calls on one *Transaction object, by signers of any chain id and location. *)
+
+(* After ANY history, types.Sender(signer, tx) on a signed transaction fails or returns the class
+   of 20 bytes AT THE LOCATION OF THE SIGNER THAT ASKS (warm or cold cache, whoever filled it). *)
+Theorem sender_class_follows_asking_location : forall t ops c l, tk t = TQuai -> tx_wf t ->
+  let r := fst (sender_step t (snd (run_ops t st_init ops)) c l) in
+  r = Err \/ exists a, List.length a = 20%nat /\ r = (if in_zone a l then Internal a else External a).
+Proof. exact sender_after_history_class. Qed.
+Print Assumptions sender_class_follows_asking_location.
+
+(* the same for tx.From(nodeLocation), for every transaction type *)
+Theorem cached_from_class_follows_asking_location : forall t ops l, tx_wf t ->
+  let x := fst (sop_step t (snd (run_ops t st_init ops)) (SFrom l)) in
+  x = SNil \/ exists a, List.length a = 20%nat /\
+                 x = sobs_of_res (if in_zone a l then Internal a else External a).
+Proof. exact from_after_history_class. Qed.
+Print Assumptions cached_from_class_follows_asking_location.
+
+(* Without SetFrom the cache is transparent: after any history the (possibly cached) answer of
+   types.Sender IS the answer of a fresh signature recovery by the asking signer. *)
+Theorem warm_sender_equals_cold_sender : forall t ops c l, tk t = TQuai -> tx_wf t ->
+  existsb is_setfrom ops = false ->
+  fst (sender_step t (snd (run_ops t st_init ops)) c l) = signer_sender t c l.
+Proof. exact warm_equals_cold. Qed.
+Print Assumptions warm_sender_equals_cold_sender.
+
+(* No answer depends on who filled the cache: two histories that differ only in the LOCATIONS of
+   their signers (same call kinds, chain ids, SetFrom bytes) are indistinguishable by every later
+   query (Sender, SignerV1.Sender, From, AsMessage, FromChain at any location). *)
+Theorem sender_answers_independent_of_cache_filler : forall t ops ops' q, tx_wf t ->
+  Forall2 sop_sim ops ops' ->
+  fst (sop_step t (snd (run_ops t st_init ops)) q) = fst (sop_step t (snd (run_ops t st_init ops')) q).
+Proof. exact answers_independent_of_fillers. Qed.
+Print Assumptions sender_answers_independent_of_cache_filler.
+
 (* Obligations on data generated from the source tree (a source edit breaks these) *)
 Theorem generated_constants_as_modelled : constants_as_modelled = true.
 Proof. exact constants_ok. Qed.
@@ -269,3 +306,15 @@ Proof. vm_compute. auto. Qed.
 
 Example f10_sites_nonvacuous : List.length f10_site_list = 8%nat.
 Proof. vm_compute. reflexivity. Qed.
+
+(* sender cache: tx.Hash() fills the cache through a signer at Location{0,0}; a zone-(0,1) node then
+   still gets its own account as INTERNAL.  The variant that re-wraps at the filler's location (the
+   blind change C16_3) answers EXTERNAL on the same state. *)
+Example sender_cache_nonvacuous :
+  tk witness_tx = TQuai /\ tx_wf witness_tx
+  /\ fst (sender_step witness_tx (snd (run_ops witness_tx st_init [SHash false])) 9 [0; 1])
+      = Internal (1 :: 5 :: repeat 7 18)
+  /\ sender_step_filler_variant witness_tx (snd (run_ops witness_tx st_init [SHash false])) 9 [0; 1]
+      = External (1 :: 5 :: repeat 7 18)
+  /\ in_zone (1 :: 5 :: repeat 7 18) [0; 1] = true.
+Proof. split; [reflexivity|]. split; [reflexivity|]. exact witness_after_hash. Qed.
